@@ -3,6 +3,7 @@ From Coq Require Import List Bool Arith Lia.
 Import ListNotations.
 From Omega Require Import L4.Arena L4.ArenaFacts L4.Kleene L4.InitSpec.
 From OmegaGen Require Import FixpointGen Gr1Gen.
+From OmegaGP Require Import ReadsGr1.
 
 Section Init.
 Variables nc nx ny : nat.
